@@ -105,7 +105,7 @@ def corpus_scenarios():
     S.append(scenario("orphan-same-parent", [blk(1, 0, 1), blk(2, 1, 2), blk(3, 1, 2, off=800)], [2, 3, 1, 3]))
     S.append(scenario("orphan-capacity", [blk(1, 0, 1), blk(2, 1, 2), blk(3, -1, 2), blk(4, -1, 3), blk(5, -1, 4)],
                       [2, 3, 4, 5, 1], cap=2))
-    # producer set in force after a failed reorganisation (known finding)
+    # producer set in force after a failed reorganisation (F42, fixed in 05cfcb8b: regression case)
     S.append(stale_set_scenario())
     return S
 
@@ -390,7 +390,7 @@ def zl(l):
 
 def f42_fixed(repo):
     """Source flag of the model: reorg() puts the consensus back on the best block after a failed
-    rollforward (fixes/NOT_APPLIED_F42_reorg_restore_consensus.diff applied)."""
+    rollforward (fixes/F42_reorg_restore_consensus.diff, /repo commit 05cfcb8b)."""
     try:
         src = open(os.path.join(repo, "chain", "reorg.go")).read()
     except OSError:
